@@ -909,6 +909,15 @@ pub fn fals_c12(rng: &mut Rng, thorough: bool) -> Fals {
                 let last = Simple::Dense { out, act, bias: rng.coin(), dropout: None };
                 spec.weights.as_mut().unwrap()[nl - 1] = LW::One(rand_w(rng, &last, Sh::Flat(prev_numel), 2));
                 spec.layers[nl - 1] = LayerSpec::One(last);
+                // a soft-max HIDDEN layer must not change the accuracy rule (it follows the output layer)
+                if serial % 3 == 1 {
+                    for k in 0..nl.saturating_sub(1) {
+                        if let LayerSpec::One(Simple::Dense { act: a, .. }) = &mut spec.layers[k] {
+                            *a = Act::Softmax;
+                            break;
+                        }
+                    }
+                }
                 let outsh = Sh::Flat(out);
                 let prob = matches!(act, Act::Softmax | Act::Sigmoid);
                 spec.obj = if prob { ALL_OBJS[serial % 7] } else { [Obj::AE, Obj::MAE, Obj::MSE, Obj::RMSE][serial % 4] };
